@@ -2348,7 +2348,12 @@ class HedgeRisks(Algo):
             i = d.index.get_loc(target.now)
             data.append((i, d))
 
-        hedge_risk = np.array([[_get_unit_risk(s, d, i) for (i, d) in data] for s in securities])
+        # risk added per unit of quantity transacted: UpdateRisk scales unit risk by the multiplier
+        def _multiplier(s):
+            c = target.children.get(s, target._lazy_children.get(s))
+            return c.multiplier if c is not None else 1.0
+
+        hedge_risk = np.array([[_get_unit_risk(s, d, i) * _multiplier(s) for (i, d) in data] for s in securities])
 
         # Get hedge ratios
         if self.pseudo:
